@@ -82,6 +82,18 @@
 (*     manager (the engine skips what an endpoint brought when it was first seen - also everything discovered before the   *)
 (*     process started: DEV legacy-first-sight when that shows); the mean lies between the provider times (whole ms) of     *)
 (*     the counted transactions of that host and method.                                                                  *)
+(* M13 quota metrics [flows_basic_rate_limit_metrics.feature: a fixed-window quota of 5, 4 requests -> "a counter named    *)
+(*     lunar_resources_quota_resource_quota_limit with the value 5", "... quota_used with the value 4"; quota_resource.go    *)
+(*     "Used quota for quota resource", "Limits for quota resource"]: quota_limit{quota_id} = the configured maximum of     *)
+(*     every quota of the configuration in force; quota_used{quota_id, group_id} = what the quota's current window has     *)
+(*     admitted (0 once that window is over), present once the quota has been charged.  The engine keeps a copy of the      *)
+(*     window counter for this gauge and overwrites it with the result of every charge - which is 0 for a refused one -     *)
+(*     so the gauge reads 0 from a refusal until the next admission (DEV quota-used-zero-after-refusal), and it keeps the    *)
+(*     last value when the window runs out; the gauges of the quotas of an earlier configuration are never unregistered     *)
+(*     and keep showing their last values until the process ends (DEV quota-series-survive-reload).  All accepted.          *)
+(*     The limiter's own counters (below / above limit) are processor metrics (M5).  The window (C01): opened by the        *)
+(*     first charge, `interval` seconds long, at most `max` admissions; a quota is charged when the limiter that refers to  *)
+(*     it runs (a request answered by an earlier flow does not reach it).                                                  *)
 (* M10 a scrape succeeds (see Collide below for the one situation in which the engine's does not).                       *)
 (*                                                                                                                     *)
 (* P is defined on the history record h (advanced by PStart / PTxn / PFlush / PReload below) and on the set S of       *)
@@ -248,7 +260,8 @@ ProcRan(h, ep) == \E i \in DOMAIN h.reqs : h.reqs[i].ep >= ep /\ h.reqs[i].nproc
 
 \* ------------------------------------------------------------------------------------------------------ M5
 \* h.pexec: the processor executions since the start that count, [fam, l]
-ProcFams == {"lunar_filter_processor_hit_count_total", "lunar_filter_processor_miss_count_total", "lunar_generated_response_count_total"}
+ProcFams == {"lunar_filter_processor_hit_count_total", "lunar_filter_processor_miss_count_total", "lunar_generated_response_count_total",
+             "lunar_limiter_processor_below_count_total", "lunar_limiter_processor_above_count_total"}
 
 ProcLaw(h, S) ==
     LET bad == {fam \in ProcFams :
@@ -308,9 +321,45 @@ LegacyLaw(h, S) ==
         ELSE IF \E s \in F : ~Mean(s) THEN "M12-Mean"
         ELSE "ok"
 
+\* ------------------------------------------------------------------------------------------------------ M13
+\* the gauges of the quota resource always carry a gateway_id label (empty when GATEWAY_INSTANCE_ID is not set: the
+\* recording drops empty label values, which is what they mean to Prometheus)
+QuotaLaw(h, S) ==
+    LET Lim == Fam(S, "lunar_resources_quota_resource_quota_limit")
+        Used == Fam(S, "lunar_resources_quota_resource_quota_used")
+        cur == SeqSet(h.quotas)
+        old == {q \in SeqSet(h.qold) : ~\E c \in cur : c.id = q.id}
+        LimL(q) == {<<"quota_id", q.id>>} \cup Gw(h)
+        UsedL(q) == {<<"quota_id", q.id>>, <<"group_id", q.grp>>} \cup Gw(h)
+        St(q) == h.qs[CHOOSE i \in DOMAIN h.quotas : h.quotas[i] = q]
+        over(q) == ~St(q).open \/ h.now - St(q).start >= q.w
+        Doc(q) == IF over(q) THEN 0 ELSE St(q).cnt
+        \* what the window has admitted (0 once it is over); the same, not yet reset although the window is over; 0 after a refusal
+        Okay(q) == {Doc(q), St(q).cnt} \cup (IF St(q).refused THEN {0} ELSE {})
+    IN  IF ~NoDup(S, "lunar_resources_quota_resource_quota_limit") \/ ~NoDup(S, "lunar_resources_quota_resource_quota_used") THEN "M13-Series"
+        ELSE IF \E q \in cur : [l |-> LimL(q), v |-> 1000 * q.max] \notin Lim THEN "M13-quota_limit"
+        ELSE IF \E s \in Lim : ~\E q \in cur \cup old : s.l = LimL(q) /\ s.v = 1000 * q.max THEN "M13-quota_limit-Unknown"
+        ELSE IF \E q \in cur : St(q).charged /\ ~\E s \in Used : s.l = UsedL(q) /\ s.v \in {1000 * x : x \in Okay(q)} THEN "M13-quota_used"
+        ELSE IF \E s \in Used : ~\E q \in cur \cup old : s.l = UsedL(q) THEN "M13-quota_used-Unknown"
+        ELSE IF \E s \in Used : \E q \in cur : s.l = UsedL(q) /\ ~St(q).charged /\ ~\E o \in SeqSet(h.qold) : o.id = q.id THEN "M13-quota_used-NeverCharged"
+        ELSE IF \E s \in Used : s.v < 0 \/ \E q \in cur \cup old : s.l = UsedL(q) /\ s.v > 1000 * q.max THEN "M13-quota_used-AboveLimit"
+        ELSE "ok"
+
+QuotaDevs(h, S) ==
+    LET Lim == Fam(S, "lunar_resources_quota_resource_quota_limit")
+        Used == Fam(S, "lunar_resources_quota_resource_quota_used")
+        cur == SeqSet(h.quotas)
+        St(q) == h.qs[CHOOSE i \in DOMAIN h.quotas : h.quotas[i] = q]
+        over(q) == ~St(q).open \/ h.now - St(q).start >= q.w
+        Doc(q) == IF over(q) THEN 0 ELSE St(q).cnt
+    IN  (IF \E s \in Lim \cup Used : ~\E q \in cur : <<"quota_id", q.id>> \in s.l THEN {"quota-series-survive-reload"} ELSE {})
+        \cup (IF \E q \in cur : St(q).charged /\ St(q).refused /\ Doc(q) # 0 /\ \E s \in Used : <<"quota_id", q.id>> \in s.l /\ s.v = 0
+              THEN {"quota-used-zero-after-refusal"} ELSE {})
+
 \* ------------------------------------------------------------------------------------------------ the scrape
 HistFams == {"lunar_transaction_duration", "lunar_provider_transaction_duration", "lunar_transaction"}
-KnownFams == ProcFams \cup HistFams \cup {"api_call_count_total", "api_call_size", "active_flows", "flow_invocations_total",
+KnownFams == ProcFams \cup HistFams \cup {"lunar_resources_quota_resource_quota_limit", "lunar_resources_quota_resource_quota_used",
+                                          "api_call_count_total", "api_call_size", "active_flows", "flow_invocations_total",
                             "requests_through_flows_total", "avg_flow_execution_time", "avg_processor_execution_time"}
 
 CountListLaw(h, S) ==
@@ -331,10 +380,11 @@ ScrapeLaw(h, S, gerr) ==
              IF gerr THEN "ok" ELSE ProcLaw(h, S),
              HistLaw(h, S, "lunar_transaction_duration", "transaction_duration", LAMBDA r : r.td),
              HistLaw(h, S, "lunar_provider_transaction_duration", "provider_transaction_duration", LAMBDA r : r.d),
-             LegacyLaw(h, S) >>)
+             LegacyLaw(h, S), QuotaLaw(h, S) >>)
 
 \* what only a named deviation explains (counted by the driver, never a verdict)
 ScrapeDevs(h, S, gerr) ==
+    QuotaDevs(h, S) \cup
     (IF gerr /\ Collide(h.pexec) THEN {"duplicate-series"} ELSE {}) \cup
     (IF CountReading(h, S) = "eng" THEN {"path-of-endpoint"} ELSE {})
     \cup (IF Fam(S, "api_call_size") # {} /\ SizeReading(h, Val(S, "api_call_size")) = "eng" THEN {"size-body-only"} ELSE {})
@@ -346,9 +396,12 @@ ScrapeDevs(h, S, gerr) ==
              /\ Len(h.flushed) > 0 THEN {"reload-compares-with-startup"} ELSE {})
 
 \* ------------------------------------------------------------------------------------------------------ M9
-\* a flow: [name, pat, fk, fm, fl, gate, st, gk, gm, gl, rf, rk, rm, rl]
-\*   request:  start -> F (Filter header x-a=1);  F hit -> G (GenerateResponse st) when gate, else end;  F miss -> end
-\*   response: start -> R (Filter status 500-599) -> end when rf, else start -> end;  G -> end
+\* a flow: [name, pat, lim, fk, fm, fl, gate, st, gk, gm, gl, rf, rk, rm, rl, lq]
+\*   ~lim: request:  start -> F (Filter header x-a=1);  F hit -> G (GenerateResponse st) when gate, else end;  F miss -> end
+\*         response: start -> R (Filter status 500-599) -> end when rf, else start -> end;  G -> end
+\*    lim: request:  start -> F (here a Limiter on quota lq: fk / fm / fl are its key and metric settings);
+\*                   F above_limit -> G (GenerateResponse st);  F below_limit -> end          response: G -> end
+\* a quota: [id, max, w, inc, grp]   inc = the key of its charging processor (system flow), grp = its group id
 \* e.procs: the processor executions of the transaction, <<flow, key, dir ("req" | "resp"), outcome>> in order
 FlowNamed(h, name) == LET I == {i \in DOMAIN h.flows : h.flows[i].name = name} IN IF I = {} THEN <<>> ELSE <<h.flows[CHOOSE i \in I : TRUE]>>
 
@@ -357,14 +410,18 @@ TxnLaw(h, e) ==
         user(p) == FlowNamed(h, p[1])
         hit  == e.hx = "1"
         answering == {i \in DOMAIN ps : user(ps[i]) # <<>> /\ user(ps[i])[1].gate /\ ps[i][2] = user(ps[i])[1].gk /\ ps[i][3] = "req"}
+        sys(p) == \E q \in SeqSet(h.quotas) : p[2] = q.inc
+        U == {i \in DOMAIN ps : ~sys(ps[i])}            \* the executions in user flows
+        opens(i) == IF user(ps[i])[1].lim THEN ps[i][4] = "above_limit" ELSE hit      \* the outcome of F that leads to G
     IN
     IF ~e.ans.answered \/ "err" \in DOMAIN e.ans THEN "M9-NoAnswer"
-    ELSE IF \E i \in DOMAIN ps : user(ps[i]) = <<>> THEN "M9-UnknownFlow"
-    ELSE IF \E i \in DOMAIN ps : ~Match(user(ps[i])[1].pat, e.us) THEN "M9-FlowNotSelected"
-    ELSE IF \E i \in DOMAIN ps : ps[i][2] = user(ps[i])[1].fk /\ ps[i][4] # (IF hit THEN "hit" ELSE "miss") THEN "M9-FilterOutcome"
-    ELSE IF \E i \in DOMAIN ps : user(ps[i])[1].gate /\ ps[i][2] = user(ps[i])[1].fk /\ hit
-                                  /\ ~\E j \in answering : j > i /\ ps[j][1] = ps[i][1] THEN "M9-GateDidNotAnswer"
-    ELSE IF answering # {} /\ ~hit THEN "M9-AnsweredWithoutHit"
+    ELSE IF \E i \in U : user(ps[i]) = <<>> THEN "M9-UnknownFlow"
+    ELSE IF \E i \in U : ~Match(user(ps[i])[1].pat, e.us) THEN "M9-FlowNotSelected"
+    ELSE IF \E i \in U : ~user(ps[i])[1].lim /\ ps[i][2] = user(ps[i])[1].fk /\ ps[i][4] # (IF hit THEN "hit" ELSE "miss") THEN "M9-FilterOutcome"
+    ELSE IF \E i \in U : user(ps[i])[1].lim /\ ps[i][2] = user(ps[i])[1].fk /\ ps[i][4] \notin {"below_limit", "above_limit"} THEN "M9-LimiterOutcome"
+    ELSE IF \E i \in U : user(ps[i])[1].gate /\ ps[i][2] = user(ps[i])[1].fk /\ opens(i)
+                          /\ ~\E j \in answering : j > i /\ ps[j][1] = ps[i][1] THEN "M9-GateDidNotAnswer"
+    ELSE IF \E j \in answering : ~\E i \in U : i < j /\ ps[i][1] = ps[j][1] /\ ps[i][2] = user(ps[i])[1].fk /\ opens(i) THEN "M9-AnsweredWithoutHit"
     ELSE IF e.ans.early # (answering # {}) THEN "M9-Early"
     ELSE IF e.ans.early /\ e.ans.st # user(ps[CHOOSE i \in answering : \A j \in answering : i <= j])[1].st THEN "M9-Status"
     ELSE IF ~e.ans.early /\ (~e.rans.answered \/ "err" \in DOMAIN e.rans) THEN "M9-NoAnswer"
@@ -389,7 +446,9 @@ PExecOf(h, e) ==
           LET F == FlowNamed(h, p[1]) IN
           IF F = <<>> THEN <<>>
           ELSE LET f == F[1] IN
-               IF p[2] = f.fk /\ f.fm THEN <<[key |-> f.fk, fam |-> IF p[4] = "hit" THEN "lunar_filter_processor_hit_count_total" ELSE "lunar_filter_processor_miss_count_total",
+               IF p[2] = f.fk /\ f.fm /\ f.lim THEN <<[key |-> f.fk, fam |-> IF p[4] = "above_limit" THEN "lunar_limiter_processor_above_count_total" ELSE "lunar_limiter_processor_below_count_total",
+                                              l |-> ProcLabels(h, e, p, f.fk, SeqSet(f.fl))]>>
+               ELSE IF p[2] = f.fk /\ f.fm THEN <<[key |-> f.fk, fam |-> IF p[4] = "hit" THEN "lunar_filter_processor_hit_count_total" ELSE "lunar_filter_processor_miss_count_total",
                                               l |-> ProcLabels(h, e, p, f.fk, SeqSet(f.fl))]>>
                ELSE IF f.rf /\ p[2] = f.rk /\ f.rm THEN <<[key |-> f.rk, fam |-> IF p[4] = "hit" THEN "lunar_filter_processor_hit_count_total" ELSE "lunar_filter_processor_miss_count_total",
                                               l |-> ProcLabels(h, e, p, f.rk, SeqSet(f.rl))]>>
@@ -400,6 +459,18 @@ PExecOf(h, e) ==
         cat(i) == IF i > Len(ps) THEN <<>> ELSE item(ps[i]) \o cat(i + 1)
     IN  cat(1)
 
+\* the window of a quota (C01): opened by the first charge, w seconds long, at most max admissions
+\* [open, start, cnt : admitted in this window, charged : charged at all since the configuration was loaded, refused : the last charge was refused]
+QFresh == [open |-> FALSE, start |-> 0, cnt |-> 0, charged |-> FALSE, refused |-> FALSE]
+QCharge(q, st, now) ==
+    LET over == ~st.open \/ now - st.start >= q.w
+        cnt0 == IF over THEN 0 ELSE st.cnt
+        ok == cnt0 + 1 <= q.max
+    IN  [open |-> (IF over THEN ok ELSE TRUE), start |-> (IF over /\ ok THEN now ELSE st.start), cnt |-> (IF ok THEN cnt0 + 1 ELSE cnt0),
+         charged |-> TRUE, refused |-> ~ok]
+
+Charges(flows, q, procs) == \E i \in DOMAIN procs : procs[i][3] = "req" /\ \E f \in SeqSet(flows) : f.lim /\ f.lq = q.id /\ f.name = procs[i][1] /\ f.fk = procs[i][2]
+
 File(e) == [labels |-> e.labels, lep |-> e.lepp, gm |-> e.gm, sm |-> e.sm]
 Cand(f) == [labels |-> f.labels, lep |-> f.lep]
 
@@ -407,7 +478,8 @@ Cand(f) == [labels |-> f.labels, lep |-> f.lep]
 PStart(h, e) ==
     [h EXCEPT !.gw = e.gw, !.fileStart = File(e), !.fileNow = File(e), !.cands = {Cand(File(e))}, !.docCand = {},
               !.flows = e.flows, !.pend = <<>>, !.resps = <<>>, !.reqs = <<>>, !.pexec = <<>>, !.ep = 0, !.up = TRUE,
-              !.ever = {Cand(File(e))}, !.hcol = <<>>, !.legacy = ("legacy" \in DOMAIN e /\ e.legacy)]
+              !.ever = {Cand(File(e))}, !.hcol = <<>>, !.legacy = ("legacy" \in DOMAIN e /\ e.legacy),
+              !.quotas = e.quotas, !.qold = <<>>, !.qs = [i \in DOMAIN e.quotas |-> QFresh], !.now = 0]
 
 PReload(h, e) ==
     LET f == File(e)
@@ -416,18 +488,26 @@ PReload(h, e) ==
         stale == {[labels |-> IF f.labels = h.fileStart.labels THEN c.labels ELSE f.labels,
                    lep    |-> IF f.lep = h.fileStart.lep THEN c.lep ELSE f.lep] : c \in h.cands}
     IN  [h EXCEPT !.fileNow = f, !.cands = {doc} \cup stale, !.docCand = IF stale = {doc} THEN {} ELSE {doc},
-                  !.flows = e.flows, !.ep = h.ep + 1, !.ever = h.ever \cup {doc} \cup stale]
+                  !.flows = e.flows, !.ep = h.ep + 1, !.ever = h.ever \cup {doc} \cup stale,
+                  !.quotas = e.quotas, !.qold = h.qold \o h.quotas, !.qs = [i \in DOMAIN e.quotas |-> QFresh]]
+
+\* the clock moves on by d seconds
+PTick(h, d) == [h EXCEPT !.now = h.now + d]
 
 \* a collection tick of the histogram managers: it meets what has been flushed so far
 PCollect(h) == [h EXCEPT !.hcol = Append(h.hcol, Len(h.flushed))]
 
 PTxn(h, e) ==
-    LET reqFlows == {e.procs[i][1] : i \in {j \in DOMAIN e.procs : e.procs[j][3] = "req"}}
-        rq == [flows |-> reqFlows, any |-> reqFlows # {}, walked |-> Len(e.procs) > 0, nproc |-> Len(e.procs), ep |-> h.ep]
+    LET reqAll == {e.procs[i][1] : i \in {j \in DOMAIN e.procs : e.procs[j][3] = "req"}}
+        reqFlows == {f \in reqAll : FlowNamed(h, f) # <<>>}          \* the user flows among them (a quota charges in a system flow)
+        \* a quota a limiter refers to is charged where the limiter runs (its own system flow only marks the place)
+        charges(q) == Charges(h.flows, q, e.procs)
+        rq == [flows |-> reqFlows, any |-> reqAll # {}, walked |-> Len(e.procs) > 0, nproc |-> Len(e.procs), ep |-> h.ep]
     IN  [h EXCEPT !.pend = Append(h.pend, [m |-> e.logged.m, us |-> e.us, st |-> e.logged.st, tag |-> e.logged.tag, d |-> e.logged.d, td |-> e.logged.td]),
                   !.reqs = Append(h.reqs, rq),
                   !.resps = IF e.ans.early THEN h.resps ELSE Append(h.resps, [clen |-> e.clen, blen |-> e.blen, ep |-> h.ep]),
-                  !.pexec = h.pexec \o PExecOf(h, e)]
+                  !.pexec = h.pexec \o PExecOf(h, e),
+                  !.qs = [i \in DOMAIN h.quotas |-> IF charges(h.quotas[i]) THEN QCharge(h.quotas[i], h.qs[i], h.now) ELSE h.qs[i]]]
 
 PFlush(h, n, attr) ==
     LET k == IF n > Len(h.pend) THEN Len(h.pend) ELSE n IN
@@ -440,5 +520,5 @@ PReset(known) ==
     [known |-> known, gw |-> "", fileStart |-> [labels |-> <<>>, lep |-> <<>>, gm |-> <<>>, sm |-> <<>>],
      fileNow |-> [labels |-> <<>>, lep |-> <<>>, gm |-> <<>>, sm |-> <<>>], cands |-> {}, docCand |-> {}, flows |-> <<>>,
      flushed |-> <<>>, pend |-> <<>>, resps |-> <<>>, reqs |-> <<>>, pexec |-> <<>>, ep |-> 0, up |-> FALSE,
-     ever |-> {}, hcol |-> <<>>, legacy |-> FALSE]
+     ever |-> {}, hcol |-> <<>>, legacy |-> FALSE, quotas |-> <<>>, qold |-> <<>>, qs |-> <<>>, now |-> 0]
 ================================================================================
